@@ -39,6 +39,8 @@ pub enum Op {
     LockAcq(&'static str, bool),
     /// receive on a multi-sender ("external") channel whose senders are threads outside the model
     RecvExt(usize),
+    /// `JoinHandle::join` on the worker with this logical thread id
+    Join(usize),
 }
 
 impl Op {
@@ -59,6 +61,7 @@ impl Op {
             Op::Point(n) => format!("P:{}", n),
             Op::LockAcq(n, w) => format!("L:{}:{}", n, if *w { "W" } else { "R" }),
             Op::RecvExt(c) => format!("RX{}", c),
+            Op::Join(t) => format!("J{}", t),
         }
     }
 }
@@ -284,13 +287,20 @@ impl State {
             .all(|t| t.status != Status::Running)
     }
 
-    /// only main is running, nothing is granted and nothing has happened for a while
-    fn main_seems_blocked(&self) -> bool {
-        self.granted.is_none()
-            && self.threads[0].status == Status::Running
-            && self.threads.iter().skip(1).all(|t| t.status != Status::Running && t.status != Status::Pending)
-            && self.threads.iter().skip(1).any(|t| matches!(t.status, Status::Parked(_)))
-            && since_progress_ms() > BLOCK_MS
+    /// exactly one thread is running, nothing is granted and nothing has happened for a while: that thread is taken to be
+    /// blocked in a call the model does not see (an un-hooked join, a real lock that is not a hook point)
+    fn seems_blocked(&self) -> Option<usize> {
+        if self.granted.is_some() || since_progress_ms() <= BLOCK_MS {
+            return None;
+        }
+        let running: Vec<usize> = self.threads.iter().enumerate().filter(|(_, t)| t.status == Status::Running).map(|(i, _)| i).collect();
+        if running.len() != 1 || self.threads.iter().any(|t| t.status == Status::Pending) {
+            return None;
+        }
+        if !self.threads.iter().any(|t| matches!(t.status, Status::Parked(_))) {
+            return None;
+        }
+        Some(running[0])
     }
 
     /// every thread parked on a RecvExt sees all live sender handles of its channel blocked in `send`
@@ -338,9 +348,12 @@ impl State {
                         }
                     }
                     // pseudo-lock "JOIN": the thread waits for every worker thread to end (JoinHandle::join)
+                    // the start of main's join loop: a plain point; each `JoinHandle::join` is an `Op::Join` of its own
                     Op::LockAcq(name, _) if *name == "JOIN" => {
-                        let workers: Vec<usize> = CHAN_TID.lock().unwrap().clone();
-                        if workers.iter().all(|w| self.threads[*w].status == Status::Finished) {
+                        v.push((tid, 0, op.short()));
+                    }
+                    Op::Join(w) => {
+                        if self.threads[*w].status == Status::Finished {
                             v.push((tid, 0, op.short()));
                         }
                     }
@@ -591,6 +604,10 @@ impl State {
                 0
             }
             Op::PostSend(_) => 0,
+            Op::Join(w) => {
+                self.events.push(format!("j{}", w));
+                0
+            }
             Op::RecvExt(c) => {
                 let x = &mut self.exts[*c];
                 x.last_change = std::time::Instant::now();
@@ -653,10 +670,12 @@ pub fn park(op: Op) -> (usize, usize) {
             // senders outside the model are still on their way: look again shortly
             g = CV.wait_timeout(g, std::time::Duration::from_millis(20)).unwrap().0;
             continue;
-        } else if tid != 0 && st.main_seems_blocked() {
-            st.threads[0].status = Status::BlockedOutside;
-            st.events.push("main-blocked-outside".to_string());
-            continue;
+        } else if let Some(b) = st.seems_blocked() {
+            if b != tid {
+                st.threads[b].status = Status::BlockedOutside;
+                st.events.push(format!("blocked-outside-t{}", b));
+                continue;
+            }
         }
         g = CV.wait_timeout(g, std::time::Duration::from_millis(250)).unwrap().0;
     }
@@ -791,6 +810,18 @@ pub fn hook_lock_acquire(name: &'static str, write: bool) {
     // the wait for the worker threads (JoinHandle::join) blocks the OS thread, so the scheduler must always know about it
     if controlled() && (hooks_on() || name == "JOIN") && my_tid().is_some() {
         park(Op::LockAcq(name, write));
+    }
+}
+
+/// `JoinHandle::join` on the thread with this name: wait (as a scheduling point) until that worker has finished.
+/// Threads the model does not know are not waited for here (the real join that follows does that).
+pub fn hook_join(name: &str) {
+    if !controlled() || my_tid().is_none() {
+        return;
+    }
+    let target = std::env::var("S4V_SOURCES").ok().and_then(|srcs| srcs.split(',').position(|x| x == name)).and_then(|i| CHAN_TID.lock().unwrap().get(i).cloned());
+    if let Some(w) = target {
+        park(Op::Join(w));
     }
 }
 
